@@ -1,5 +1,6 @@
 pub mod case;
 pub mod checks;
+pub mod crash;
 pub mod engine;
 pub mod gen;
 pub mod guard;
